@@ -29,6 +29,7 @@ class Streams:
         self.gen = random.Random(self.key + ":gen")
         self.sched = random.Random(self.key + ":sched")
         self.fault = random.Random(self.key + ":fault")
+        self.deep = False      # thorough tier: property modules may draw larger configurations
 
 
 class Tape:
